@@ -298,3 +298,17 @@ Example ex_gated :
      GCall (ASet (Some 4) 4 20); GCall ATick; GCall ATick; GRelease 900]) =
   [[]; []; []; []; [(1, 900)]; [(3, 3); (4, 4)]; [(2, 2)]].
 Proof. vm_compute. reflexivity. Qed.
+
+(* callbacks that call back into the wheel (re-arm their own key, move / remove another key,
+   Drain) while other callbacks are held open: the run is the run of the EFFECTIVE history
+   (every operation followed by the calls its callbacks made), so again nothing is lost and
+   nothing doubled: delivered + waiting behind a blocked callback = fired by the due-map *)
+Theorem reentrant_delivery_conserves : forall n i hold react ops,
+  1 <= n -> 1 <= i ->
+  let s0 := mkD (ainit n i) [] [] in
+  let eff := effective astep hold react s0 ops in
+  Permutation (concat (map (fun x => fst (fst x)) (rrun astep hold react s0 ops))
+               ++ undelivered (gfinal astep hold s0 eff))
+              (concat (gfired (asp_step i) (false, []) eff)).
+Proof. exact reentrant_gated_conserves. Qed.
+Print Assumptions reentrant_delivery_conserves.
